@@ -1,5 +1,6 @@
 import QV.Core.Num
 import QV.Model.C20
+import QV.Model.C20Regions
 open QV QV.C20 QV.Gen.C20
 
 def showInts (l : List Int) : String := " ".intercalate (l.map toString)
@@ -18,6 +19,19 @@ def step (_ : Unit) (ts : List String) : Unit × String :=
       ((), " | ".intercalate ((List.range s.toNat).map fun (k : Nat) => let r : Int := k;
         showInts (if mode == "par" then blockRange s r a b else serialRange a b)))
     | _, _, _ => ((), "bad-op")
+  | "regions" :: act :: lvl :: reg :: ops =>
+    -- regions <active 0|1> <level> <region> <s|f>...  ->  level:region:distributes after every op
+    match lvl.toInt?, reg.toInt? with
+    | some l, some r =>
+      let active := act == "1"
+      let rec go (s : RState) (os : List String) (acc : List String) : List String :=
+        match os with
+        | [] => acc.reverse
+        | o :: rest =>
+          let s' := rstep active s (if o == "s" then ROp.start else ROp.finish)
+          go s' rest (s!"{s'.level}:{s'.region}:{if distributes s' then 1 else 0}" :: acc)
+      ((), " ".intercalate (go { level := l, region := r } ops []))
+    | _, _ => ((), "bad-op")
   | _ => ((), "bad-op")
 
 def main : IO Unit := runDriver step ()
